@@ -103,6 +103,9 @@ def distribution(prof, label):
                     c["histories_with_2+_addresses"] += 1
                 addrs, prev_first = set(), {}
                 continue
+            if t[0] == "FLOOD":
+                c["floods_of_1100_addresses"] = c.get("floods_of_1100_addresses", 0) + 1
+                continue
             addrs.add(t[1])
             c["served" if r[0] == "S" else "blocked"] += 1
             c[{"x": "via_xff", "l": "via_xff_list", "r": "via_remoteaddr"}[t[2]]] += 1
